@@ -117,7 +117,7 @@ def show(t, depth=0):
 
 class State(object):
     __slots__ = ("mem", "conds", "effects", "refine", "wver", "ctr", "loopcnt", "loopinfo", "loopstack",
-                 "stack", "notes")
+                 "stack", "notes", "types")
 
     def __init__(self):
         self.mem = {}
@@ -131,6 +131,7 @@ class State(object):
         self.loopstack = ()
         self.stack = ()
         self.notes = []
+        self.types = {}         # term -> ADT it was matched as (lets trait calls on its payloads be resolved)
 
     def copy(self):
         s = State.__new__(State)
@@ -145,6 +146,7 @@ class State(object):
         s.loopstack = self.loopstack
         s.stack = self.stack
         s.notes = list(self.notes)
+        s.types = dict(self.types)
         return s
 
     def fresh(self):
@@ -246,6 +248,7 @@ class Engine(object):
         self._paths = 0
         self._steps = 0
         self._fx = {}
+        self._tyenv = {}               # frame id -> {type parameter: type argument} of inlined generic functions
         self._item_adt = {}
         self.blind = set()             # (unmodelled callee, effectful closure) pairs: analysis blind spots, fail closed
 
@@ -265,6 +268,7 @@ class Engine(object):
                     args.append(("param", nm))
             self._paths = 0
             self._steps = 0
+            self._tyenv = {}
             res = self.run_body(st, body, list(args), 0, ("entry", 0))
             out = [Path(*self.settle(s, r), entry=body.path) for (s, r) in res]
             self.stat_paths += len(out)
@@ -295,7 +299,54 @@ class Engine(object):
                 elif stp.value.get(nm) == lv0:
                     inv[lv0] = v0
                     inv[("loopvar", e.name, nm, 1)] = v0
-        if not opts and not inv:
+        # index loops are element loops: `let mut i = 0; while i < c.len() { .. c[i] ..; i += 1 }` and
+        # `for i in 0..c.len() { .. c[i] .. }` visit the elements of c in order, like `for x in &c`.  They are rewritten to
+        # that form (synthetic `next` decisions on an `iter#` loop variable whose entry value is c), so that every rule
+        # that reads loops reads these too.
+        idx_elem = {}          # (collection term, index term) -> element term
+        cond_rw = {}           # guard term -> (next term)
+        ent_add = {}           # loop key -> {"iter#": collection} / {ivar: collection}
+        steps_ = {e.name: e for e in st.effects if e.kind == "loop_step"}
+        for e in st.effects:
+            if e.kind != "loop_enter":
+                continue
+            lk = e.name
+            stp = steps_.get(lk)
+            # form A: a counter that starts at 0, is compared with c.len() and stepped by one
+            for nm, v0 in e.value.items():
+                if v0 != ("lit", 0):
+                    continue
+                lv = [("loopvar", lk, nm, k) for k in (0, 1)]
+                if stp is not None and stp.value.get(nm) not in (("bin", "add", lv[0], ("lit", 1)), ("bin", "add_wrapping", lv[0], ("lit", 1))):
+                    continue
+                coll = None
+                for c in st.conds:
+                    t = c[0]
+                    if t[0] == "cmp" and t[1] == "lt" and t[2] in lv and t[3][0] == "call" and t[3][1] == "len" and isinstance(c[1], bool):
+                        coll = t[3][2][0]
+                if coll is None:
+                    continue
+                for k in (0, 1):
+                    nxt = ("calli", "next", (("loopvar", lk, "iter#", k),), -(k + 1))
+                    idx_elem[(coll, lv[k])] = ("vfield", nxt, "Some", "0")
+                    cond_rw[("cmp", "lt", lv[k], ("call", "len", (coll,)))] = nxt
+                ent_add.setdefault(lk, {})["iter#"] = coll
+            # form B: for i in 0..c.len()
+            for nm, v0 in e.value.items():
+                if v0[0] == "struct" and v0[1].endswith("ops::range::Range"):
+                    f = dict(v0[2])
+                    if f.get("start") == ("lit", 0) and f.get("end") is not None and f["end"][0] == "call" and f["end"][1] == "len":
+                        coll = f["end"][2][0]
+                        used = False
+                        for k in (0, 1):
+                            for c in st.conds:
+                                t = c[0]
+                                if t[0] == "calli" and t[1] == "next" and t[2][0] == ("loopvar", lk, nm, k) and c[1] == "Some":
+                                    idx_elem[(coll, ("vfield", t, "Some", "0"))] = ("vfield", t, "Some", "0")
+                                    used = True
+                        if used:
+                            ent_add.setdefault(lk, {})[nm] = coll
+        if not opts and not inv and not idx_elem:
             return st, ret
         memo = {}
 
@@ -309,6 +360,10 @@ class Engine(object):
                 r = ("vfield", rw(t[1]), "Some", "0") if opts[t[1]] == "Some" else rw(t[2])
             elif t[0] == "loopvar" and t in inv:
                 r = rw(inv[t])
+            elif idx_elem and t[0] == "index" and (t[1], t[2]) in idx_elem:
+                r = idx_elem[(t[1], t[2])]
+            elif idx_elem and t[0] == "call" and t[1].endswith("Index>::index") and len(t[2]) == 2 and (t[2][0], t[2][1]) in idx_elem:
+                r = idx_elem[(t[2][0], t[2][1])]
             else:
                 r = tuple(rw(x) if isinstance(x, tuple) else x for x in t)
                 if r == t:
@@ -319,7 +374,13 @@ class Engine(object):
         for t in opts:
             probe = True
             break
-        st.conds = [(rw(c[0]), c[1], c[2], c[3]) for c in st.conds]
+        newconds = []
+        for c in st.conds:
+            if c[0] in cond_rw and isinstance(c[1], bool):
+                newconds.append((cond_rw[c[0]], "Some" if c[1] else "None", c[2], c[3]))
+            else:
+                newconds.append((rw(c[0]), c[1], c[2], c[3]))
+        st.conds = newconds
         import copy as _copy
         neweff = []
         for e in st.effects:       # Effect objects are shared with sibling paths: never mutate, copy on change
@@ -338,6 +399,8 @@ class Engine(object):
                     e.args = a2
             elif e.kind in ("loop_enter", "loop_step"):
                 v2 = {k: rw(v) for k, v in e.value.items()}
+                if e.kind == "loop_enter" and e.name in ent_add:
+                    v2.update(ent_add[e.name])
                 if v2 != e.value:
                     e = _copy.copy(e)
                     e.value = v2
@@ -698,6 +761,92 @@ class Engine(object):
             return ("call", "repeat", (self.val(st, self.eval_operand(st, body, fid, rv["o"])), ("str", rv["n"])))
         return ("unknown", "rvalue", k)
 
+    def pretty_type_of(self, st, t, n=0):
+        """pretty type name of the value a term denotes, when the term says it (literal structs / variants) or the path
+        matched an enclosing enum (payload of a decided variant) - else None"""
+        while isinstance(t, tuple) and t and t[0] == "ref" and n < 8:
+            t = self.read_loc(st, t[1], t[2])
+            n += 1
+        if not isinstance(t, tuple) or not t:
+            return None
+        if t[0] in ("struct", "variant"):
+            a = self.facts.adt(t[1])
+            return (a or {}).get("pretty", t[1])
+        if t[0] == "zst":
+            a = self.facts.adt(t[1])
+            return (a or {}).get("pretty", t[1])
+        if t[0] == "vfield":
+            adt = st.types.get(t[1])
+            a = self.facts.adt(adt) if adt else None
+            if a:
+                for v in a["variants"]:
+                    if v["name"] == t[2]:
+                        for f in v["fields"]:
+                            if f["name"] == t[3]:
+                                return strip_generics(f["ty"].lstrip("&").replace("mut ", "").strip())
+        ta = self.term_adt(t)
+        if ta:
+            a = self.facts.adt(ta)
+            return (a or {}).get("pretty", ta)
+        return None
+
+    def workspace_from(self, st, arg, call):
+        """`x.into()` / `U::from(x)` where the workspace implements From<typeof x> for U: the impl's body (else None)"""
+        if not hasattr(self, "_froms"):
+            import re as _re
+            self._froms = {}
+            for p, b in self.facts.bodies.items():
+                m = _re.match(r"^<(.+) as std::convert::From<(.+)>>::from$", p)
+                if m and b.kind == "fn":
+                    self._froms.setdefault(m.group(2), []).append((strip_generics(m.group(1)), b))
+                m = _re.search(r"<impl std::convert::From<(.+)> for (.+)>::from$", p)
+                if m and b.kind == "fn":
+                    self._froms.setdefault(m.group(1), []).append((strip_generics(m.group(2)), b))
+        if not self._froms:
+            return None
+        # the source type, with its type arguments: `From<Vec<Coin>>` is not `From<Vec<MemberDiff>>`
+        ty = None
+        if call is not None and call.get("substs"):
+            subs = [x.get("ty", "") for x in call["substs"]]
+            src = subs[0] if call.get("callee", "").endswith("Into::into") else subs[-1]     # <S as Into<T>> / <T as From<S>>
+            ty = src if src in self._froms else None
+        if ty is None:
+            ty = self.pretty_type_of(st, arg)       # ADT names carry no arguments: usable only for non-generic sources
+            if ty is not None and "<" in ty:
+                ty = None
+        if ty is None or ty not in self._froms:
+            return None
+        cands = self._froms[ty]
+        if len(cands) == 1:
+            return cands[0][1]
+        body = self.facts.bodies.get(st.stack[-1]) if st.stack else None
+        if body is not None and call is not None and not call["dest"]["p"]:
+            want = strip_generics(body.locals[call["dest"]["l"]]["ty"])
+            hit = [b for u, b in cands if u == want]
+            if len(hit) == 1:
+                return hit[0]
+        return None
+
+    def resolve_trait_call(self, st, trait_method_dp, recv, ty=None):
+        if not hasattr(self, "_impls"):
+            import re as _re
+            self._impls = {}
+            for p, b in self.facts.bodies.items():
+                m = _re.match(r"^<(.+) as (.+)>::(\w+)$", p)
+                if m and b.kind == "fn":
+                    self._impls.setdefault((strip_generics(m.group(2)), m.group(3)), []).append((strip_generics(m.group(1)), b))
+        tp = trait_method_dp.rsplit("::", 1)
+        if len(tp) != 2:
+            return None
+        cands = self._impls.get((tp[0], tp[1]), [])
+        if not cands:
+            return None
+        ty = ty or self.pretty_type_of(st, recv)
+        if ty is None:
+            return None
+        hit = [b for sty, b in cands if sty == ty or sty.split("::")[-1] == ty.split("::")[-1] and sty.split("::")[0] == ty.split("::")[0]]
+        return hit[0] if len(hit) == 1 else None
+
     def item_value_adt(self, item):
         """def-path id of T for a storage const Item<T> / Map<K, T> / SnapshotMap<K, T> (None when T is not an ADT)"""
         if item in self._item_adt:
@@ -815,6 +964,8 @@ class Engine(object):
         if t[0] == "variant":
             return [(st, t[2], [v for _, v in t[3]])]
         a = self.facts.adt(adt) if adt else None
+        if a is not None and adt not in (OPTION, RESULT, CFLOW):
+            st.types[t] = adt
         known = st.refine.get(t)
         if a is None:
             # unknown ADT table: best effort for Option / Result
@@ -872,8 +1023,10 @@ class Engine(object):
         return [(st, pol), (s2, not pol)]
 
     # ------------------------------------------------------------------ interpreter
-    def run_body(self, st, body, args, depth, callsite):
+    def run_body(self, st, body, args, depth, callsite, tyenv=None):
         fid = st.fresh()
+        if tyenv:
+            self._tyenv[fid] = tyenv
         for i, a in enumerate(args):
             st.mem[(fid, i + 1)] = a
         self.stat_bodies.add(body.path)
@@ -960,6 +1113,21 @@ class Engine(object):
     def loop_head(self, st, body, fid, bb, info):
         key = (fid, bb)
         cnt = st.loopcnt.get(key, 0)
+        # a loop driven by an iterator over a sequence with known elements is unrolled exactly (p_next answers
+        # deterministically and ends it): no loop variables, no 0/1 approximation
+        mkey = ("mode", fid, bb)
+        mode = st.loopinfo.get(mkey)
+        if mode is None:
+            mode = "approx"
+            for l in sorted(info["assigned"]):
+                v = st.mem.get((fid, l))
+                if isinstance(v, tuple) and v and ((v[0] == "list" and len(v[1]) <= 8) or v[0] == "default") \
+                        and "Iter" in body.locals[l].get("ty", ""):
+                    mode = "unrolled"       # (the Default of a collection is the empty collection)
+            st.loopinfo[mkey] = mode
+        if mode == "unrolled":
+            st.loopcnt[key] = cnt + 1
+            return cnt <= 10
         if cnt >= 2:
             return False
         lk = (body.path, bb, fid)
@@ -1087,7 +1255,7 @@ class Engine(object):
         name = self.canon.get(dp) or strip_generics(pretty)
         trait_name = self.canon.get(t["callee_dp"]) or strip_generics(t["callee"])
         ctor = t.get("ctor")
-        return self.call_named(st, dp, name, trait_name, ctor, args, site, depth, t)
+        return self.call_named(st, dp, name, trait_name, ctor, args, site, depth, t, cfid=fid)
 
     def call_value(self, st, f, args, site, depth):
         n_ = 0
@@ -1105,7 +1273,18 @@ class Engine(object):
             return self.call_named(st, f[1], f[2], f[2], UNHD(f[3]), args, site, depth, None)
         return [(st, ("call", "<indirect>", (self.val(st, f),) + tuple(self.val(st, a) for a in args)))]
 
-    def call_named(self, st, dp, name, trait_name, ctor, args, site, depth, t):
+    def bind_generics(self, b, dp, t, cfid):
+        """type parameters of the inlined generic function `b`, bound to the type arguments its call site names (read through
+        the caller's own bindings) - lets trait methods called through a type parameter inside `b` be dispatched"""
+        if t is None or not b.generics or dp != t.get("callee_dp"):
+            return None
+        subs = t.get("substs") or []
+        if len(subs) != len(b.generics):
+            return None
+        cenv = self._tyenv.get(cfid) or {}
+        return {g: cenv.get(s_["ty"], s_["ty"]) for g, s_ in zip(b.generics, subs)}
+
+    def call_named(self, st, dp, name, trait_name, ctor, args, site, depth, t, cfid=None):
         if ctor:
             vals = tuple(args)
             a = self.facts.adt(ctor["adt"])
@@ -1139,13 +1318,23 @@ class Engine(object):
         if b is not None and b.path not in self.opaque and name not in self.opaque:
             if depth >= self.max_depth or b.path in st.stack:
                 return [(st, ("call", b.path, tuple(self.val(st, a) for a in args)))]
-            return self.run_body(st, b, list(args), depth + 1, site)
+            return self.run_body(st, b, list(args), depth + 1, site, tyenv=self.bind_generics(b, dp, t, cfid))
         if b is not None:
             # workspace function kept atomic at the rule's request
             return [(st, ("call", b.path, tuple(self.val(st, a) for a in args)))]
         h = self.prims.lookup(name, trait_name)
         if h is not None:
             return h(self, st, name, args, site, depth, t)
+        if t is not None and t.get("res_kind") in ("unresolved", "virtual") and args:
+            # a workspace trait method called through a type parameter or `dyn Trait`: dispatch on what the receiver is
+            impl = self.resolve_trait_call(st, t["callee_dp"], args[0])
+            if impl is None and t.get("substs"):
+                # ... or on what the enclosing generic function's call site bound `Self` to
+                sty = (self._tyenv.get(cfid) or {}).get(t["substs"][0]["ty"])
+                if sty:
+                    impl = self.resolve_trait_call(st, t["callee_dp"], None, ty=strip_generics(sty))
+            if impl is not None and depth < self.max_depth and impl.path not in st.stack:
+                return self.run_body(st, impl, list(args), depth + 1, site)
         self.unmodelled[name] = self.unmodelled.get(name, 0) + 1
         return self.prims.opaque_call(self, st, name, args, site, t)
 
